@@ -140,8 +140,8 @@ func genLC(rt *rapid.T, gates bool, known map[string]bool, col *Collector) []lcS
 		}
 		if nsess > 0 {
 			kinds = append(kinds, "cause", "two", "traffic", "traffic", "advance", "advance", "sendAfterClose")
-			if rapid.IntRange(0, 9).Draw(rt, l+".sc") == 0 {
-				kinds = append(kinds, "serverClose")
+			if rapid.IntRange(0, 3).Draw(rt, l+".sc") == 0 {
+				kinds = append(kinds, "serverClose", "serverClose")
 			}
 			if gates {
 				if !known[sigDoubleClose] {
@@ -386,8 +386,12 @@ func (lw *lcWorld) causeFn(s *lcSess, cause string) func() {
 				Settle()
 				s.pc.Pump()
 			}
-			lw.w.AppSend(s.sr, msgT("buffered 1"), nil, true, 0)
-			lw.w.AppSend(s.sr, msgT("buffered 2"), nil, false, 0)
+			if len(s.sr.Events)%2 == 0 {
+				lw.w.AppSend(s.sr, msgT("buffered 1"), nil, true, 0)
+				lw.w.AppSend(s.sr, msgT("buffered 2"), nil, false, 0)
+			} else {
+				lw.stats["close-with-empty-buffer-and-no-further-poll"] = true
+			}
 			s.sr.Sock.Close(false)
 		}
 	case "appClose":
@@ -746,6 +750,11 @@ func runLC(steps []lcStep) (*lcWorld, bubbleResult) {
 					s.addCause(st.Cause2)
 				}
 				lw.stats["two-causes-same-instant"] = true
+				posts := map[string]bool{"closePacket": true, "wrongHeartbeat": true}
+				if s.pc != nil && posts[st.Cause] && posts[st.Cause2] {
+					// two simultaneous data requests of one polling client are themselves an overlap
+					s.addCause("overlap")
+				}
 				s.addCause(st.Cause)
 				var wg sync.WaitGroup
 				wg.Add(2)
